@@ -13,6 +13,16 @@ TEXT = {
    note="trusted: Lean kernel (+3 standard axioms), the hand-written decode/encode model (validated differentially, ~1M lines per quick run), IEEE conversion laws as explicit hypotheses (FloatLaws), extractor/harness/runner",
    technique="Lean 4 proof (induction-free case analysis + omega over unbounded Int/Nat) + regenerated facts + differential correspondence",
    design="§4/C10"),
+ "C02": dict(
+   text="Lean 4 theorems for EVERY byte string (no hypothesis on the input): each typed decoder, the table decoders, the type/size probe, OpenValue, the recursive ParseValue/ParseList/ParseMessage (by strong induction on fuel; termination included), the list accessors, the message accessors including the unsafe binary search (loop invariant 0<=left, right<n, fuel), and the generated struct-decoder pattern never panic and report 0<=n<=len also next to an error. Tie: exact differential of outcome class, size, value and views between every Go entry point (run under recover, input placed against guard pages on both sides) and the compiled model; exhaustive for inputs of <=2 bytes (quick) / <=3 bytes ending in a type code (thorough), structure-aware mutants.",
+   note="trusted: Lean kernel, the hand-written decode/types model (validated on ~1.9M lines per quick run), mmap guard pages + SetPanicOnFault for out-of-slice reads, extractor/harness/runner; views are sub-lists by construction in the model, pointer containment is checked on the implementation",
+   technique="Lean 4 proof (case analysis + omega, strong induction on fuel, loop invariant for the binary search) + differential correspondence with guard pages",
+   design="§4/C02"),
+ "C13": dict(
+   text="Lean 4 theorems: every typed decoder and both table decoders are local (accepting q++s with size |s| implies accepting p++s with the same value and size for every p); the recursive parser is local at the drivers' fuel for every input and nesting; re-parsing the returned value gives the same size; the parser's answer is independent of fuel. The agreement clause parser=>probe/open is PARTIAL: checked by the differential stream and the Go-side composite oracle (c13 lines), not by a theorem. Tie: composite c13 op evaluated natively in Go and on the model (all inputs <=2 bytes, truncations and mutants of valid encodings, alphabet strings), each under 6 adversarial prefixes.",
+   note="trusted: as C02; partial: probe/open agreement not yet a theorem",
+   technique="Lean 4 proof (prefix-replacement lemmas per decoder, fuel monotonicity by induction) + differential correspondence + Go-only oracle",
+   design="§4/C13"),
 }
 
 def main():
